@@ -135,16 +135,9 @@ def _sign_applied_at_call_time(module, call):
 
 
 def _cache_entry_origin(prog, mod, key):
-    """(function, value node, assigns) for `X["key"] = value` stores in a module."""
-    out = []
-    for f2 in prog.functions.values():
-        if f2.module is not mod:
-            continue
-        a2 = local_assignments(f2.node)
-        for n in walk_local(f2.node, include_self=False):
-            if isinstance(n, ast.Assign) and isinstance(n.targets[0], ast.Subscript) and isinstance(n.targets[0].slice, ast.Constant) and n.targets[0].slice.value == key:
-                out.append((f2, n.value, a2))
-    return out
+    """(function, value node, assigns) for the stores under cache key ``key`` in a module."""
+    from .common import cache_entry_stores
+    return cache_entry_stores(prog, key, lambda m: m is mod)
 
 
 def _wiring(prog, rep, fi, call):
@@ -196,6 +189,11 @@ def _wiring(prog, rep, fi, call):
                     if isinstance(val, ast.Call) and isinstance(val.func, ast.Name) and "bound" in val.func.id and val.args and src(val.args[0]) == "variables":
                         ok = True
                         why_ok = f"bounds are computed on every solve by {val.func.id}(variables) (checked by R09.3)"
+        if not ok and got is None:
+            # not fed from the solver cache dict at all (kept elsewhere, wrapped differently): only a *different* cache
+            # entry in this role is positively wrong
+            rep.undecided(f"{fname}:minimize({k}=): `{src(v)[:40]}` is not recognisably the cache entry {key!r}")
+            continue
         rep.ob("R09.1", f"{fname}:minimize({k}=)", ok, why_ok if ok else f"{k} is fed from cache entry {got!r} (expected {key!r})", loc=f"{fi.module.rel}:{call.lineno}", detail="role")
     for k in ("x0", "method", "tol"):
         ok = k in kw and src(kw[k]) == k
@@ -255,6 +253,9 @@ def _wiring(prog, rep, fi, call):
         from_obj = ok and (any(isinstance(x, ast.AST) and src(x).endswith(".objective") for x in ah.get(exprn, []))
                            or any(isinstance(x, ast.Attribute) and x.attr in ("objective", "_objective") for x in ast.walk(origin.args[0]))
                            or any(isinstance(x, ast.Name) and any(isinstance(v_, ast.AST) and src(v_).endswith(".objective") for v_ in ah.get(x.id, [])) for x in ast.walk(origin.args[0])))
+        if not ok:
+            rep.undecided(f"{fh.name}:hess_fn: what is stored under 'hess_fn' (`{src(vh)[:40]}`) is not a compile_hessian(..) result this rule can follow")
+            continue
         rep.ob("R09.1", f"{fh.name}:hess_fn", bool(from_obj), f"the Hessian is compiled from the problem's objective (`{exprn}`)" if from_obj else "the Hessian handed to SciPy is not compiled from the problem's objective", loc=f"{fh.module.rel}:{vh.lineno}", detail="from-objective")
 
     # R09.2 negation consistency: every artefact compiled for the backend is compiled from -objective iff the user
